@@ -471,3 +471,79 @@ def l4(facts, tier):
                                  f"{fid}: `{name}` on the state guarded by {lk} is followed by a notify on {cv}" if notified else
                                  f"{fid}: `{name}` changes the state guarded by {lk} and the function returns without signalling {cv}: a thread "
                                  f"sleeping in a wait on it (entry {sorted(wstate)}) is never woken — concurrent connection attempts hang")
+
+
+# ---------------------------------------------------------------------------------------------
+# L5: check-then-act across two critical sections of the same lock
+
+@rule("L5", ["C16"], floor=0, doc="no check-then-act across two critical sections: when a function decides on a value read under a lock and then, on "
+      "that decision, reads the same locked state again in a SECOND critical section, the second access receives the data the decision was "
+      "about (so that it can re-validate under the lock); otherwise another thread may replace the state in between and the caller "
+      "combines two unrelated snapshots")
+def l5(facts, tier):
+    from ..flow import parent_map
+    lm = LockModel(facts)
+    n = 0
+    for fid, f in sorted(lm.local.items()):
+        if f["crate"] != "savefile_abi" or not f.get("body"):
+            continue
+        sites = []     # (call node, lock)
+        for x in walk(f["body"]):
+            if x.get("k") != "Call":
+                continue
+            t = target_of(x)
+            lk = lm.acquisition(x)
+            locks = {lk} if lk else (set(lm.acquires(t)) if t in lm.local and t != fid else set())
+            for l_ in locks:
+                sites.append((x, l_))
+        if len(sites) < 2:
+            continue
+        # sites that are nested in a region where this function already holds the lock are one section
+        held = []
+        for lk, node, region, var in lm.held_regions(f):
+            for r in region:
+                for y in walk(r):
+                    held.append((id(y), lk))
+        order = {id(y): i for i, y in enumerate(walk(f["body"]))}
+        pm = parent_map(f["body"])
+        for i, (x1, l1) in enumerate(sites):
+            for x2, l2 in sites[i + 1:]:
+                if l1 != l2 or x1 is x2 or order[id(x2)] < order[id(x1)]:
+                    continue
+                if (id(x2), l1) in held and (id(x1), l1) in held:
+                    continue
+                # is x2 control-dependent on x1's result?
+                cond = None
+                p, child = pm.get(id(x2)), x2
+                while p is not None:
+                    if p.get("k") == "If" and any(child is y for y in walk(p["t"])):
+                        if any(y is x1 for y in walk(p["c"])):
+                            cond = p["c"]
+                        else:
+                            vs = {y["v"] for y in walk(p["c"]) if y.get("k") == "Var"}
+                            for z in walk(f["body"]):
+                                if z.get("k") == "LetS" and z["pat"].get("k") == "Bind" and z["pat"]["v"] in vs and z.get("init") is not None \
+                                        and any(y is x1 for y in walk(z["init"])):
+                                    cond = p["c"]
+                    child, p = p, pm.get(id(p))
+                if cond is None:
+                    continue
+                n += 1
+                cond_vars = {y["v"] for y in walk(cond) if y.get("k") == "Var"}
+                cond_vars |= {y["v"] for a in x1.get("args", []) for y in walk(a) if y.get("k") == "Var"}
+                passes = any(y.get("k") == "Var" and y["v"] in cond_vars for a in x2.get("args", []) for y in walk(a))
+                # a guard-based second section: what is done under the guard counts
+                for lk_, node_, region_, var_ in lm.held_regions(f):
+                    if node_ is x2:
+                        passes = passes or any(y.get("k") == "Var" and y["v"] in cond_vars for r_ in region_ for y in walk(r_))
+                    if node_ is x1:
+                        cond_vars |= {y["v"] for r_ in region_ for y in walk(r_) if y.get("k") == "Var"}
+                key = f"{fid}:{l1.split('::')[-1]}#{n}"
+                yield ob(["C16"], "L5", key, "pass" if passes else "violation", where(f, x2),
+                         f"{fid}: the second critical section of {l1} receives the data the decision was made on" if passes else
+                         f"{fid}: decides on a value read under {l1} and then reads that state again in a second critical section without handing "
+                         f"over what it decided on: between the two sections another thread can replace the state, so the value returned belongs "
+                         f"to a different key than the one that was checked (a connection gets another interface's template)")
+    if n == 0:
+        yield ob(["C16"], "L5", "no-check-then-act", "pass", "", "no function reads the same locked state in two critical sections with the second "
+                 "depending on the first", nontrivial=False)
